@@ -5,9 +5,10 @@ set -u
 patch=$1; shift
 if [ -n "$(git -C /repo status --porcelain)" ]; then echo "/repo not clean" >&2; exit 2; fi
 git -C /repo apply "$patch" || { echo "patch does not apply" >&2; exit 2; }
-trap 'git -C /repo checkout -- . ; /verif/vbuild wild wild-b2 >/dev/null 2>&1' EXIT
+trap 'git -C /repo checkout -- . ; /verif/vbuild wild wild-b2 engines >/dev/null 2>&1' EXIT
 cd /verif
-./vbuild wild wild-b2 || { echo "build failed" >&2; exit 2; }
+# engines: unitx (C12/C13/C29) path-depends on /repo, so it is rebuilt from the patched tree too
+./vbuild wild wild-b2 engines || { echo "build failed" >&2; exit 2; }
 for id in "$@"; do
   out=/dev/shm/mut_$(basename "$patch" .diff)_$id.log
   timeout 3000 ./check "$id" --tier ${TIER:-quick} --no-build > "$out" 2>&1
